@@ -140,6 +140,7 @@ type Path struct {
 	obs       []obsRec
 	lenient   bool
 	ufTable   map[string]uint64
+	pure      bool // speculative evaluation during if-conversion: anything that would fork or raise aborts
 }
 
 type obsRec struct {
@@ -160,6 +161,9 @@ type forkRequest struct {
 type unsupported struct{ msg string }
 
 func (p *Path) unsup(format string, a ...interface{}) {
+	if p.pure {
+		panic(impureAbort{})
+	}
 	panic(unsupported{fmt.Sprintf(format, a...)})
 }
 
@@ -451,6 +455,9 @@ func (p *Path) concretize(t *Term, cands []uint64) uint64 {
 	if v, ok := p.conc[t.ID]; ok {
 		return v
 	}
+	if p.pure {
+		panic(impureAbort{})
+	}
 	panic(forkRequest{t, cands})
 }
 
@@ -458,6 +465,9 @@ func (p *Path) concretize(t *Term, cands []uint64) uint64 {
 // Go-level panics raised by the interpreted program
 
 func (p *Path) raise(kind, msg string, val Value) {
+	if p.pure {
+		panic(impureAbort{})
+	}
 	gp := &goPanic{kind: kind, site: p.where(), val: val}
 	if val == nil {
 		gp.val = Iface{T: types.Typ[types.String], V: Str{S: "runtime error: " + msg}}
@@ -473,6 +483,9 @@ func (p *Path) check(cond *Term, kind, msg string) {
 	}
 	if cond.IsFalse() {
 		p.raise(kind, msg, nil)
+	}
+	if p.pure {
+		panic(impureAbort{})
 	}
 	neg := p.ts().BNot(cond)
 	okNeg, mNeg := p.feasible(neg)
@@ -1157,6 +1170,9 @@ func (p *Path) branch(f *Frame, ins *ssa.If) {
 	}
 	if c.IsFalse() {
 		p.jump(f, fb)
+		return
+	}
+	if p.tryIfConvert(f, c) {
 		return
 	}
 	ts := p.ts()
